@@ -126,6 +126,11 @@ def build(desc):
         keep = {"VERS", "WRAP", "DLM", "STRT", "STOP", "STEP", "NULL"}
         cand = [it for it in list.__iter__(section) if it.original_mnemonic.upper() not in keep]
         if cand:
+            if name == "<next>":
+                # the name another item of the section already answers to: two items then share one session mnemonic
+                if len(cand) < 2:
+                    continue
+                name = cand[(pos + 1) % len(cand)].mnemonic
             cand[pos % len(cand)].mnemonic = name
     # fields assigned after the build are stored verbatim (no constructor normalisation applies to them)
     for sec, pos, field, text in desc.get("assign", []):
@@ -415,7 +420,7 @@ def las_desc(draw, inf=False, max_items=4, max_curves=5, max_rows=6, p_text=4, p
     d = {}
     if drops and roll(draw, 4) == 0:
         d["rename"] = [[draw(st.sampled_from(["Well", "Parameter", "Curves"])), draw(st.integers(0, 5)),
-                        draw(st.sampled_from([" GR ", "GR  ", "  ", "\t", " x", "NEW", "gr"]))]]
+                        draw(st.sampled_from([" GR ", "GR  ", "  ", "\t", " x", "NEW", "gr", "<next>", "<next>"]))]]
     if drops and roll(draw, 4) == 0:
         d["assign"] = [[draw(st.sampled_from(["Well", "Parameter", "Curves"])), draw(st.integers(0, 5)),
                         draw(st.sampled_from(["unit", "unit", "descr"])),
